@@ -69,6 +69,13 @@ struct VbkBlock {
 extern const uint192 vstd_empty_hash192;
 bool DeserializeFromRaw(ReadStream& stream, VbkBlock& out, ValidationState& state, const VbkBlock::hash_t& precalculatedHash = vstd_empty_hash192);
 bool DeserializeFromVbkEncoding(ReadStream& stream, VbkBlock& out, ValidationState& state, const VbkBlock::hash_t& precalculatedHash = vstd_empty_hash192);
+struct KeystoneContainer {   // entities/keystone_container.hpp: the two data members
+  std::vector<uint8_t> firstPreviousKeystone;
+  std::vector<uint8_t> secondPreviousKeystone;
+  void toVbkEncoding(WriteStream& stream) const;
+  size_t estimateSize() const;
+#include "slices/ksc_eq.inc"
+};
 #include "slices/generic_DeserializeFromRaw.inc"
 #include "slices/btc_toRaw.inc"
 #include "slices/btc_toVbkEncoding.inc"
@@ -76,6 +83,8 @@ bool DeserializeFromVbkEncoding(ReadStream& stream, VbkBlock& out, ValidationSta
 #include "slices/btc_setters.inc"
 #include "slices/btc_DeserializeFromRaw.inc"
 #include "slices/btc_DeserializeFromVbkEncoding.inc"
+#include "slices/ksc_toVbkEncoding.inc"
+#include "slices/ksc_estimateSize.inc"
 #include "slices/vbk_toRaw.inc"
 #include "slices/vbk_toVbkEncoding.inc"
 #include "slices/vbk_estimateSize.inc"
